@@ -75,6 +75,90 @@ def multiStep (parsesTop parsesFlow : Str → Bool) (nextSteps : Str → List Ev
   | .startFlow body => .startFlow body :: orListen (processStartFlow parsesFlow nextSteps flowId body)
   | e => [e]
 
+/-! ## multi-step generation with the try/except structure explicit (phase 4)
+
+`parse_colang_file` is an ORACLE that may do anything: raise an exception of any kind `ε`, or return any list of flow ids.
+`compute_next_steps` (and, for later iterations, whatever `generate_events` runs: actions, flow sliding) is an oracle that may
+raise an exception of kind `δ` or return any list of events. -/
+
+abbrev ParseOracle (ε : Type) := Str → Except ε (List Str)
+
+/-- the validation parse inside `generate_next_step` (`try: parse_colang_file(...) except Exception: <drop the last line>`):
+    only "raised or not" is observed -/
+def parsesTopOf {ε : Type} (parse : ParseOracle ε) (s : Str) : Bool :=
+  match parse s with
+  | .ok _ => true
+  | .error _ => false
+
+/-- `len(parsed_data["flows"]) != 1 or parsed_data["flows"][0]["id"] != flow_id` (negated) -/
+def oneFlowWithId (flowId : Str) (flows : List Str) : Bool :=
+  match flows with
+  | [f] => f == flowId
+  | _ => false
+
+/-- how the `try:` block of `_process_start_flow` ends -/
+inductive TryOutcome (ε : Type) where
+  | passed
+  | parserRaised (e : ε)
+  | valueError          -- `raise ValueError("Expected exactly one dynamic flow.")`
+
+def processStartFlowTry {ε : Type} (parse : ParseOracle ε) (flowId src : Str) : TryOutcome ε :=
+  match parse src with
+  | .error e => .parserRaised e
+  | .ok flows => if oneFlowWithId flowId flows then .passed else .valueError
+
+/-- `_process_start_flow` (after /repo a5f1c81): `except Exception` turns EVERY outcome of the try block other than success
+    into the fallback `BotIntent general response`; `_compute_next_steps` is called outside the `try`. -/
+def processStartFlowE {ε δ : Type} (parse : ParseOracle ε) (nextSteps : Str → Except δ (List Ev)) (flowId body : Str) :
+    Except δ (List Ev) :=
+  let src := dynamicFlowSource flowId body
+  match processStartFlowTry parse flowId src with
+  | .passed => nextSteps src
+  | _ => .ok [.botIntent generalResponse]
+
+/-- what can leave `generate_events` -/
+inductive GenErr (δ : Type) where
+  | raised (e : δ)          -- an exception of the step function (compute_next_steps / an action dispatcher failure)
+  | tooManyEvents           -- `raise Exception("Too many events.")`
+  deriving Repr, DecidableEq
+
+/-- last element (`next_events[-1]`) -/
+def lastEv : List Ev → Option Ev
+  | [] => none
+  | [e] => some e
+  | _ :: es => lastEv es
+
+/-- the `while True` loop of `generate_events`.  `step events` = the branch chosen on `events[-1]`.
+    Every iteration appends at least one event, the loop raises once more than 100 were appended: `fuel` = 102 suffices
+    (`genLoop_fuel_irrelevant`), the `0` case is never reached from `generateEvents`. -/
+def genLoop {δ : Type} (step : List Ev → Except δ (List Ev)) : Nat → List Ev → List Ev → Except (GenErr δ) (List Ev)
+  | 0, _, _ => .error .tooManyEvents
+  | fuel + 1, events, newEvents =>
+    match step events with
+    | .error e => .error (.raised e)
+    | .ok next0 =>
+      let next := orListen next0
+      let newEvents' := newEvents ++ next
+      if lastEv next == some .listen then .ok newEvents'
+      else if newEvents'.length > 100 then .error .tooManyEvents
+      else genLoop step fuel (events ++ next) newEvents'
+
+def generateEvents {δ : Type} (step : List Ev → Except δ (List Ev)) (events : List Ev) : Except (GenErr δ) (List Ev) :=
+  genLoop step 102 events []
+
+/-- the step function of a multi-step turn: `start_flow` goes to `_process_start_flow`, everything else to `cont` -/
+def stepMS {ε δ : Type} (parse : ParseOracle ε) (nextSteps : Str → Except δ (List Ev)) (cont : List Ev → Except δ (List Ev))
+    (flowId : Str) (events : List Ev) : Except δ (List Ev) :=
+  match lastEv events with
+  | some (.startFlow body) => processStartFlowE parse nextSteps flowId body
+  | _ => cont events
+
+/-- the multi-step turn from the completion of the next-step call on: the event returned by `generate_next_step`
+    (validated with the raising parser) is appended and `generate_events` continues from it -/
+def multiStepTurn {ε δ : Type} (parse : ParseOracle ε) (nextSteps : Str → Except δ (List Ev)) (cont : List Ev → Except δ (List Ev))
+    (p : Parser) (flowId out : Str) (history : List Ev) : Except (GenErr δ) (List Ev) :=
+  generateEvents (stepMS parse nextSteps cont flowId) (history ++ [multiStepNextStep (parsesTopOf parse) p out])
+
 /-! ## single-call mode: how the pre-computed events are consumed -/
 
 def streamingPrefix : Str := lit "Bot message: \"<<STREAMING["
